@@ -195,7 +195,7 @@ fn weights(p: Profile) -> W {
         Profile::General => base,
         Profile::Exit => W { unstake: 16, submit: 10, deadline: 10, deliver: 12, withdraw: 16, ..base },
         Profile::Ibc => W { relay: 14, timeout: 8, recover: 12, fault: 10, stray: 6, forced: 5, stake: 24, rewards: 8, ..base },
-        Profile::Admin => W { config: 8, halt: 4, resume: 4, feew: 4, owner: 10, intruder: 16, validators: 6, forced: 3, deadline: 8, ..base },
+        Profile::Admin => W { config: 8, halt: 4, resume: 4, feew: 4, owner: 10, intruder: 16, validators: 6, forced: 3, deadline: 8, migrate: 2, ..base },
         Profile::Rates => W { stake: 30, unstake: 14, submit: 10, deadline: 8, resume: 4, rewards: 8, deliver: 6, ..base },
         Profile::Fees => W { rewards: 18, feew: 10, config: 8, resume: 2, ..base },
         Profile::Queries => W { query: 30, unstake: 14, submit: 10, deadline: 10, deliver: 8, ..base },
